@@ -14,7 +14,7 @@ from .core import Ctx, RULES
 
 def load_rules():
     from . import rules_g  # noqa: F401
-    for mod in ("rules_e", "rules_p", "rules_det", "rules_l", "rules_d", "rules_abs", "rules_text", "rules_expr", "rules_tmpl", "rules_more", "rules_bank", "rules_more2", "rules_more3", "rules_peg2", "rules_r11"):
+    for mod in ("rules_e", "rules_p", "rules_det", "rules_l", "rules_d", "rules_abs", "rules_text", "rules_expr", "rules_tmpl", "rules_more", "rules_bank", "rules_more2", "rules_more3", "rules_peg2", "rules_r11", "rules_r12"):
         try:
             __import__(f"sa.{mod}")
         except ModuleNotFoundError as e:
